@@ -136,6 +136,23 @@ def run_exact(c, tolerant=False):
       if not (g == e):
         raise Violation("y[%d] = %r, expected exactly %r (b=%r a=%r x=%r zero=%r mem=%r/%s route=%s) full=%r"
                         % (n, g, e, nzb, nza, x, zero, eff, c["mem"], c["route"], got))
+  # the same filter object is reusable: a second call with another input, zero value and
+  # memory must again be the difference equation (nothing may be carried over or cached)
+  if not tolerant and len(x) >= 2:
+    x2 = [v + 1 for v in reversed(x)]
+    zero2 = Q(3, 2) if zero != Q(3, 2) else Q(-1)
+    mem2v = [v - 2 for v in reversed(c["memv"])]
+    kind2 = {"none": "list", "list": "gen", "tuple": "call", "gen": "none", "call": "tuple",
+             "long": "stream", "stream": "long"}[c["mem"]]
+    seen2 = []
+    mem2, eff2 = memory(kind2, mem2v, lm, zero2, seen2)
+    got2 = list(filt(list(x2), memory=mem2, zero=zero2))
+    exp2 = diffeq_ref(nzb, nza, x2, zero2, eff2)
+    if got2 != exp2:
+      raise Violation("second call of the same filter object: %r, expected %r (b=%r a=%r x=%r zero=%r mem=%r/%s; "
+                      "first call had zero=%r mem kind %s)" % (got2, exp2, nzb, nza, x2, zero2, eff2, kind2, zero, c["mem"]))
+    if kind2 == "call" and seen2 != [lm]:
+      raise Violation("second call: callable memory asked for sizes %r, order is %d" % (seen2, lm))
   labels = ["route:" + c["route"], "mem:" + c["mem"]]
   a0 = nza[0]
   labels.append("a0=1" if a0 == 1 else "a0=-1" if a0 == -1 else
